@@ -181,6 +181,8 @@ def build(run):
     run.kani(crate12, [lemma12], timeout=600)
     crate13, lemma13 = mhchem_lemma(run)
     run.kani(crate13, [lemma13], timeout=600)
+    crate14, lemma14 = pseudo_lemma(run)
+    run.kani(crate14, [lemma14], timeout=900)
     crate8, lemma8 = marker_lemma(run)
     run.kani(crate8, [lemma8], timeout=600)
     crate7, lemma7 = attach_lemma(run)
@@ -508,6 +510,74 @@ def mhchem_lemma(run):
     return crate, dict(id="K-C08-p.mhchem_hack_test_total", harness="mhchem_hack_test_is_total", api=lambda v, o: api_mhchem(),
                        role=lambda v, o: "empty-mpadded-indexed", covers=["mhchem shape recognised", "mrow > mrow > empty mpadded of width 0 reachable"],
                        claim="is_from_mhchem_hack answers for every nesting within the bound: no index into an empty child list")
+
+
+# ======================================================================================================================
+# D-C08-q: handle_pseudo_scripts is called by clean_mathml as `let mathml = handle_pseudo_scripts(merged)`: what it hands back takes the
+#          place of the element being cleaned, so it must never be that element's PARENT (the parent would become its own child)
+PS_SHIM = r"""
+const EXCL_RETURNS_THE_PARENT: bool = false;
+pub mod xpath_functions { pub struct IsNode; impl IsNode { pub fn is_scripted(e: &super::Element) -> bool { let n = super::name(e); n == "msub" || n == "msup" || n == "msubsup" || n == "mmultiscripts" } } }
+mod crate_ { pub use super::xpath_functions; }
+fn mml_to_string(_e: &Element) -> String { String::from("m") }
+impl<'a> dom::Element<'a> {
+    /// only data-pseudo-script is asked for here; it is kept in the id-code cell of the model (the elements of this lemma have no ids)
+    fn attribute_ps(&self) -> bool { self.attribute("id").is_some() }
+}
+"""
+
+PS_HARNESS = r"""
+/// one concrete shape: parent P (0 = mrow, 1 = msup, 2 = mfrac) holding  [<mi>x</mi>]? M   where M = <mrow> of one prime, or of a prime and an x
+/// -> 0 ok, 1 = the parent was handed back, 2 = another element was handed back
+fn shape(pk: usize, first: bool, all_pseudo: bool) -> u8 {
+    let parent = dom::new_node(match pk { 0 => 5, 1 => 11, _ => 9 });
+    if !first { let x = dom::new_node(0); dom::set_leaf(x, 4); parent.append_child_id(x.id); }
+    let m = dom::new_node(5);
+    let prime = dom::new_node(7); dom::set_leaf(prime, 25); m.append_child_id(prime.id);
+    if !all_pseudo { let y = dom::new_node(0); dom::set_leaf(y, 4); m.append_child_id(y.id); }
+    parent.append_child_id(m.id);
+    let r = handle_pseudo_scripts(m);
+    if r.id == parent.id { 1 } else if r.id != m.id { 2 } else { 0 }
+}
+HARNESS(pseudo_script_hands_back_its_own_element, 12, [std::string::ToString::to_string => to_string_stub]) {
+    let k = sym::below(12);
+    if EXCL_RETURNS_THE_PARENT { sym::assume(k != 2); }       // known finding C08/returns-the-parent assumed away: pseudo scripts only, not first, parent an mrow
+    let code = match k {
+        0 => shape(0, true, true), 1 => shape(0, true, false), 2 => shape(0, false, true), 3 => shape(0, false, false),
+        4 => shape(1, true, true), 5 => shape(1, true, false), 6 => shape(1, false, true), 7 => shape(1, false, false),
+        8 => shape(2, true, true), 9 => shape(2, true, false), 10 => shape(2, false, true), _ => shape(2, false, false),
+    };
+    cover!(k == 6, "row of pseudo scripts already in script position reachable");
+    cover!(k == 3, "row with an operand reachable");
+    assert!(code != 1, "handle_pseudo_scripts hands back the PARENT of the element it was asked about: clean_mathml installs the parent as its own child (unbounded recursion later)");
+    assert!(code != 2, "handle_pseudo_scripts hands back another element than the one it was asked about");
+}
+"""
+
+
+def api_pseudo(vals=None, out=None):
+    res = mcprobe([("mathml", "<math><mrow><mi>x</mi><mrow intent='prime'><mo>′</mo></mrow></mrow></math>"), ("mathml", "<math><mi>z</mi></math>")], timeout=120)
+    return any(r[0] in ("PANIC", "ABORT") for r in res), {"script": "set_mathml(<mrow><mi>x</mi><mrow intent='prime'><mo>prime</mo></mrow></mrow>): the process overflows its stack (abort)", "results": [(r[0], str(r[1])[:200]) for r in res]}
+
+
+def pseudo_lemma(run):
+    c = slicer.Source.get("src/canonicalize.rs")
+    f = c.find("fn clean_mathml", "fn handle_pseudo_scripts")
+    one = c.find("static ELEMENTS_WITH_ONE_CHILD")
+    run.uses(f, one)
+    text = f.text.replace("crate::xpath_functions::IsNode", "xpath_functions::IsNode").replace('child.attribute("data-pseudo-script").is_some()', 'child.attribute_ps()') \
+        .replace('mrow.set_attribute_value("data-pseudo-script", "true")', 'mrow.set_attribute_value("id", "ps")')
+    consts = slicer.referenced_consts(c, f.text, PS_SHIM + one.text)
+    run.uses(*consts)
+    body = prelude.STR_STUBS + prelude.PHF_MOCK + prelude.MINIDOM + prelude.TOSTRING_STUB + PS_SHIM + one.text + "\n" + "\n".join(k.text for k in consts) + "\n" + text + PS_HARNESS
+    crate = kani_run.Crate("c08ps", body, native_deps=prelude.PHF_NATIVE_DEP)
+    run.bound("D-C08-q", "handle_pseudo_scripts verbatim (with its nested is_pseudo_script) on the model DOM: an mrow of one prime, or of a prime and an operand, as first or second child of an mrow / msup / mfrac")
+    run.assume("D-C08-q: model DOM (MINIDOM); the data-pseudo-script attribute is kept in the model's id cell (two textual substitutions in the slice: the attribute name in set_attribute_value / attribute); PSEUDO_SCRIPTS / ELEMENTS_WITH_ONE_CHILD expanded from their table text")
+    return crate, dict(id="D-C08-q.pseudo_script_returns_own_element", harness="pseudo_script_hands_back_its_own_element", api=lambda v, o: api_pseudo(),
+                       role=lambda v, o: "returns-the-parent" if "hands back the PARENT" in o else "returns-another-element",
+                       exclusions={"returns-the-parent": "RETURNS_THE_PARENT"},
+                       covers=["row of pseudo scripts already in script position reachable", "row with an operand reachable"],
+                       claim="handle_pseudo_scripts(e) hands back e itself (its children may be regrouped), never e's parent")
 
 
 # ======================================================================================================================
